@@ -194,6 +194,12 @@ class MonitoredList(MonitoredContainer, list):
     def append(self, item):
         self._add_item(item)
 
+    def __iadd__(self, items):
+        # `lst += items` on the container itself (an alias of the field, a helper that was handed the list) never passes
+        # through the descriptor: the elements are recorded here
+        self.extend(items)
+        return self
+
     def _add_item(
         self, item, inferred: bool = False, add_relation_to_the_graph: bool = True
     ):
@@ -262,6 +268,21 @@ class MonitoredSet(MonitoredContainer, set):
     def update(self, values):
         for value in values:
             self._add_item(value)
+
+    def __ior__(self, values):
+        # `s |= values` on the container itself never passes through the descriptor: the elements are recorded here
+        self.update(values)
+        return self
+
+    def symmetric_difference_update(self, values):
+        values = set(values)
+        common = set(self) & values
+        self.difference_update(common)
+        self.update(values - common)
+
+    def __ixor__(self, values):
+        self.symmetric_difference_update(values)
+        return self
 
     def _add_item(
         self, value, inferred: bool = False, add_relation_to_the_graph: bool = True
